@@ -155,6 +155,13 @@ impl Parser<'_> {
         self.peek() == kind
     }
 
+    /// Look-ahead that does not spend fuel. Grammar rules use it to assert what their caller
+    /// has just checked; `at` cannot be used for that, because a metered look-ahead starts
+    /// answering `eof` as soon as the fuel runs out.
+    pub fn at_unmetered(&mut self, kind: TokenKind) -> bool {
+        self.input.peek() == kind
+    }
+
     pub fn at_any(&mut self, kinds: &[TokenKind]) -> bool {
         let k = self.peek();
         kinds.contains(&k)
